@@ -71,7 +71,7 @@ def run_once(c, ctx, d, nt, sub):
         args += ["--first-frame", str(c["first"])]
     if c["nframes"] is not None:
         args += ["--nframes", str(c["nframes"])]
-    rc, out = ctx.sh(args, cwd=wd, timeout=600)
+    rc, out = ctx.sh(args, cwd=wd, timeout=120)
     files = {}
     for f in sorted(os.listdir(wd)):
         p = os.path.join(wd, f)
@@ -94,6 +94,10 @@ def run_case(c, ctx, d):
     if c["nframes"] is not None:
         nsel = min(nsel, c["nframes"])
     r.nontrivial = nsel >= 2 and bool(f1)
+    if rc1 == -999 or rck == -999:
+        # wall-clock budget hit: inconclusive, never a violation (deadlocks are decided by the scheduler harness)
+        r.discard = True
+        return r
     for out in (out1, outk):
         if sanitizer_report(out):
             return r.fail("csg_stat/sanitizer", out[-1500:])
